@@ -56,8 +56,8 @@ package cache
 // Source and cache store are black boxes behind the deterministic FS / File interface contracts (results are
 // uninterpreted functions of a world token). What is proved is the control discipline C10/C11 ask for.
 
-//@ syncmap ReadOnlyFS.cacheInfo key string val hackpadfs.FileInfo
-//@ syncmap ReadOnlyFS.cached key string val interface{}
+//@ syncmap ReadOnlyFS.cacheInfo key string val hackpadfs.FileInfo props C10
+//@ syncmap ReadOnlyFS.cached key string val interface{} props C11 C10
 
 //@ spec roOK(fs *ReadOnlyFS) := fs != nil && fs.sourceFS != nil && fs.cacheFS != nil && fs.options.RetainData != nil
 //@ spec complete(fs *ReadOnlyFS, name string) := in(name, dom(fs.cached))
